@@ -220,6 +220,9 @@ def matrix_metrics(chk, prog):
     from sa.lib import E_ref as _E
     q_ = _us("gq")
     log_arms(chk, prog, flog, q_, _E(q_))
+    # angular_distance is the norm of the logarithm of R1 R2^T: the logarithm's closed form on the decision path of sample rotations (rule shared with C10)
+    from props.c10 import log_samples, LOG_SAMPLES, _more_log_samples
+    log_samples(chk, prog, flog, q_, _E(q_), samples=LOG_SAMPLES if _TIER[0] != "thorough" else LOG_SAMPLES + _more_log_samples())
 
 
 def coincide_guard(chk, prog):
@@ -313,7 +316,11 @@ def canaries(chk, prog):
             chk.canary(name, False, "crashed: %s: %s" % (type(e).__name__, e))
 
 
+_TIER = ["quick"]
+
+
 def run(chk, prog, tier):
+    _TIER[0] = tier
     from sa import lints
     mm = prog.module("ahrs/utils/metrics.py")
     lints.no_sign_zero(chk, prog, list(mm.funcs.values()), "for two quaternions with exactly zero inner product (rotations a half-turn apart) the antipode selection "
